@@ -675,7 +675,7 @@ Definition ex_hsm : machine :=
     [ ("toB", [("A", [tr "A" (Some "B") [] [] [] [] []]); ("P", [tr "P" (Some "B_y") ["c2"] [] [] [] []])]);
       ("back", [("B_y", [tr "B_y" (Some "A") [] [] [] [] []; tr "B_y" (Some "B_y") [] [] [] [] []])]) ]
     (Some (inl "A")) "mach" ["bsc"] ["asc"] ["pe"] ["fe"] ["oe"] ["of"]
-    true true "state" false None true
+    true true "state" false None QModel
     [ mkModel (MS ["A"]) "c14.ModelA"; mkModel (MS ["B"; "x"]) "c14.ModelB";
       mkModel (ML [MS ["P"; "r"; "a"]; MS ["P"; "s"]]) "c14.ModelA" ].
 
@@ -690,7 +690,7 @@ Definition ex_flat : machine :=
     [ st "A" ["enterA"] ["exitA"]; State "B" [] [] [] (Some true) true None [] []; st "C" [] [] ]
     [ ("go", [("A", [tr "A" (Some "B") ["c1"] [] [] ["b1"] []; tr "A" (Some "C") [] [] [] [] []]);
               ("B", [tr "B" None [] [] [] [] ["a1"]])]) ]
-    (Some (inl "A")) "" [] [] [] [] [] [] false false "status" true None false
+    (Some (inl "A")) "" [] [] [] [] [] [] false false "status" true None QFalse
     [ mkModel (MS ["C"]) "c14.ModelOA" ].
 Lemma ex_flat_wf : wf_machine ex_flat = true.
 Proof. vm_compute. reflexivity. Qed.
@@ -720,7 +720,7 @@ Proof. vm_compute. split; reflexivity. Qed.
 Definition kf1 : machine :=
   mkMachine false [State "A" [] [] [] (Some false) false None [] []; st "B" [] []]
             [("go", [("B", [tr "B" (Some "A") [] [] [] [] []])])]
-            (Some (inl "A")) "" [] [] [] [] [] [] false false "state" false (Some true) false [].
+            (Some (inl "A")) "" [] [] [] [] [] [] false false "state" false (Some true) QFalse [].
 Lemma roundtrip_refuted_flag :
   exists m, map (fun s => eff_ignore (m_ignore m) (s_ignore s)) (m_states m) = [false; true]
     /\ map (fun s => eff_ignore (m_ignore m) (s_ignore s)) (m_states (of_markup (m_hsm m) (to_markup m))) = [true; true]
@@ -734,7 +734,7 @@ Proof. exists kf1. vm_compute. repeat split; reflexivity. Qed.
 Definition kf2 : machine :=
   mkMachine false [st "A" [] []; st "B" [] []]
             [("to_B", [("A", [tr "A" (Some "B") ["guard"] [] [] [] []]); ("B", [tr "B" (Some "B") ["guard"] [] [] [] []])])]
-            (Some (inl "A")) "" [] [] [] [] [] [] false false "state" false None false [].
+            (Some (inl "A")) "" [] [] [] [] [] [] false false "state" false None QFalse [].
 Lemma faithful_refuted_auto_name :
   exists m, m_auto m = false /\ List.length (flatten (m_events m)) = 2 /\ k_transitions (to_markup m) = []
             /\ m_events (of_markup (m_hsm m) (to_markup m)) = [].
@@ -745,7 +745,7 @@ Proof. exists kf2. vm_compute. repeat split; reflexivity. Qed.
 Lemma current_direct_example :
   map ks_attrs (k_states (snd (getter (run_ops [OGet; ODirectState 0 ["A"] "late"]
         (construct true (to_markup (mkMachine true [st "A" [] []] [] (Some (inl "A")) "" [] [] [] [] [] []
-                                              false false "state" false None false []))))))) 
+                                              false false "state" false None QFalse []))))))) 
   = [[("on_enter", AList ["late"])]].
 Proof. vm_compute. reflexivity. Qed.
 
@@ -755,7 +755,7 @@ Lemma current_refuted_set_list :
     /\ k_bsc (to_markup (mach (run_ops ops (construct false d)))) = ["late"].
 Proof.
   exists (to_markup (mkMachine false [st "A" [] []] [] (Some (inl "A")) "" ["early"] [] [] [] [] [] false false
-                               "state" false None false [])),
+                               "state" false None QFalse [])),
          [OSetList 0 ["late"]].
   vm_compute. split; reflexivity.
 Qed.
@@ -766,6 +766,6 @@ Lemma roundtrip_refuted_no_initial :
     /\ map s_name (m_states m) = ["A"]
     /\ map s_name (m_states (of_markup (m_hsm m) (to_markup m))) = ["A"; "initial"].
 Proof.
-  exists (mkMachine false [st "A" [] []] [] None "" [] [] [] [] [] [] false false "state" false None false []).
+  exists (mkMachine false [st "A" [] []] [] None "" [] [] [] [] [] [] false false "state" false None QFalse []).
   vm_compute. repeat split; reflexivity.
 Qed.
